@@ -350,6 +350,11 @@ func (m *model) commit(f sym, e expect, serverReset bool) {
 			if !f.EH {
 				m.inBlock, m.blockES = f.ID, true
 			}
+		default:
+			// ignored on a closed stream: the header block is still open at connection level (6.10)
+			if !f.EH {
+				m.inBlock, m.blockES = f.ID, false
+			}
 		}
 	case 'C':
 		if f.EH {
@@ -519,7 +524,7 @@ func c08Run(r *vf.Run, t *testing.T, id string, seq []sym, parked bool) {
 		var gate chan struct{}
 		if parked {
 			gate = e.H.NewGate()
-			e.H.Default = &rt.RespPlan{Status: 200, Body: []byte("ok"), Gate: gate}
+			e.H.SetDefault(&rt.RespPlan{Status: 200, Body: []byte("ok"), Gate: gate})
 		}
 		seenFrames := e.P.NFrames()
 		seenRecs := 0
